@@ -123,6 +123,8 @@ def import_order(P):
                     events.append(('class', m.classes[s.name]))
                 elif isinstance(s, ast.Expr) and isinstance(s.value, ast.Call):
                     events.append(('call', m, s.value))
+                elif isinstance(s, ast.FunctionDef) and s.decorator_list:
+                    events.append(('funcdef', m, s))   # e.g. `@lx.is_symmetric.register(Cls)` on a module-level function
                 elif isinstance(s, (ast.For, ast.While, ast.With, ast.Try, ast.AugAssign, ast.Delete)):
                     events.append(('stmt', m, s))      # e.g. `for tag in TAGS: tag.register(Cls)(...)` at module level
         stmts(m.tree.body)
@@ -149,6 +151,17 @@ def run_registration(S):
             _, m, call = ev
             if any(is_operator_class(c) for c in m.classes.values()):
                 I.ev(call, Frame(m))
+            continue
+        if ev[0] == 'funcdef':
+            _, m, node = ev
+            # a decorated module-level function: only registrations on lineax's tag functions matter here
+            if any(is_operator_class(c) for c in m.classes.values()) and \
+                    any('.register(' in ast.unparse(d) for d in node.decorator_list):
+                from pyvc.source import FuncInfo
+                fi = FuncInfo(m.name, node.name, node, None, 'function', list(node.decorator_list))
+                v = I.funcref(fi, None)
+                for d in reversed(node.decorator_list):
+                    v = I.call(I.ev(d, Frame(m)), [v], {})
             continue
         if ev[0] == 'stmt':
             _, m, stmt = ev
